@@ -4,7 +4,6 @@ import re
 from gettext import NullTranslations
 from typing import Any
 from typing import Optional
-from typing import cast
 
 from markupsafe import Markup
 
@@ -20,6 +19,7 @@ from liquid.messages import MESSAGES
 from liquid.messages import MessageText
 from liquid.messages import TranslatableFilter
 from liquid.messages import Translations
+from liquid.messages import check_translations
 from liquid.stringify import to_liquid_string
 
 __all__ = [
@@ -87,9 +87,9 @@ class BaseTranslateFilter:
             ) from err
 
     def _resolve_translations(self, context: RenderContext) -> Translations:
-        return cast(
-            Translations,
+        return check_translations(
             context.resolve(self.translations_var, default=self.default_translations),
+            self.translations_var,
         )
 
 
